@@ -51,6 +51,8 @@ def body_source(backend: str, key: str) -> str:
         return f"lambda e: {c}.Select(lambda j: j.pt())"
     if key == "undeclared":  # the type of foo() is whatever the method-type registry says (default: double + warning)
         return f"lambda e: {c}.Select(lambda j: j.foo())"
+    if key == "declared":  # the column type is int only if THIS query's own add_method_type_info was processed
+        return f"lambda e: {c}.Select(lambda j: j.bar())"
     if key == "undeclared2":
         return f"lambda e: {c}.Select(lambda j: j.bar() + j.foo())"
     if key.startswith("undeclared_alt"):  # undeclared method on a type that HAS backend defaults
